@@ -25,27 +25,50 @@ class Tags:
         return self.n
 
 
-def call(kind, c, t, v=0, oneway=False, more=False, shuffle=None, s="", raw_utf8=False):
-    """Wire bytes (without terminator) of a valid call.  more: False = flag absent, True = "more":true,
-    "false" = "more":false written out.  kind "Say" carries the string s, which the service echoes."""
+def call(kind, c, t, v=0, oneway=False, more=False, shuffle=None, s="", raw_utf8=False, upgrade=False,
+         order=None):
+    """Wire bytes (without terminator) of a valid call.  Each flag (oneway, more, upgrade): False = member
+    absent, True = written as true, "false" = written out as false.  kind "Say" carries the string s, which
+    the service echoes.  order: a permutation (list of member names) fixing the member positions; shuffle: an
+    rng that shuffles them."""
     params = {"c": c, "t": t}
     if kind in ("Echo", "Fail"):
         params["v"] = v
     if kind == "Say":
         params["s"] = s
     items = [("method", "org.zv." + kind), ("parameters", params)]
-    if oneway:
-        items.append(("oneway", True))
-    if more is True:
-        items.append(("more", True))
-    elif more == "false":
-        items.append(("more", False))
+    for name, val in (("oneway", oneway), ("more", more), ("upgrade", upgrade)):
+        if val is True:
+            items.append((name, True))
+        elif val == "false":
+            items.append((name, False))
+    if order is not None:
+        items.sort(key=lambda kv: order.index(kv[0]) if kv[0] in order else len(order))
     if shuffle is not None:
         shuffle.shuffle(items)
     return json.dumps(dict(items), separators=(",", ":"), ensure_ascii=not raw_utf8).encode()
 
 
+FLAG = [False, True, "false"]
+# every combination of the three flags (absent / true / written-out false): 27
+FLAG_COMBOS = [(o, m, u) for o in FLAG for m in FLAG for u in FLAG]
+MEMBER_ORDERS = [["method", "parameters", "oneway", "more", "upgrade"],
+                 ["oneway", "more", "upgrade", "method", "parameters"],
+                 ["more", "method", "oneway", "parameters", "upgrade"],
+                 ["upgrade", "parameters", "more", "method", "oneway"],
+                 ["parameters", "oneway", "method", "upgrade", "more"]]
+
+
+def is_oneway(flag):
+    return flag is True
+
+
 MORE = [False, True, "false"]
+
+UTF8_BAD = ["utf8_%s@%s" % (b, w)
+            for b in ("lone_continuation", "lone_continuation2", "truncated2", "truncated3", "truncated4",
+                      "overlong2", "overlong3", "ff", "fe", "surrogate", "too_big")
+            for w in ("bare", "before", "after", "in_string", "in_method", "in_key")]
 
 # strings a client may send: U+0000 and other control characters, quotes and backslashes, multi-byte
 # characters (2, 3 and 4 bytes), and mixtures
@@ -76,6 +99,28 @@ def bad_frame(kind, c, t, rng=None):
         return b"[1,2,3]"
     if kind == "truncated_json":
         return call("Echo", c, t, 5)[:-3]
+    if kind.startswith("utf8_"):
+        # bytes that are not UTF-8: outside of any string, or inside a string parameter of an otherwise
+        # valid call
+        bad = {"lone_continuation": b"\x80", "lone_continuation2": b"\xbf\xbf", "truncated2": b"\xc3",
+               "truncated3": b"\xe2\x82", "truncated4": b"\xf0\x9f\x98", "overlong2": b"\xc0\xaf",
+               "overlong3": b"\xe0\x80\xaf", "ff": b"\xff", "fe": b"\xfe", "surrogate": b"\xed\xa0\x80",
+               "too_big": b"\xf4\x90\x80\x80"}[kind[5:].split("@")[0]]
+        where = kind.split("@")[1]
+        if where == "bare":
+            return bad
+        if where == "before":
+            return bad + call("Echo", c, t, 5)
+        if where == "after":
+            return call("Echo", c, t, 5) + bad
+        if where == "in_string":
+            return call("Say", c, t, s="a@@b").replace(b"@@", bad)
+        if where == "in_method":
+            return call("Echo", c, t, 5).replace(b"org.zv.Echo", b"org.zv." + bad + b"Echo")
+        if where == "in_key":
+            return call("Echo", c, t, 5).replace(b'"oneway"', b'"one' + bad + b'way"') if False else \
+                call("Echo", c, t, 5).replace(b'"v"', b'"v' + bad + b'"')
+        raise ValueError(kind)
     raise ValueError(kind)
 
 
@@ -281,8 +326,10 @@ def run_cases(ck, cases, step, limit, per_shard=60):
             n_panic += 1
             if n_panic > 5:
                 continue
-            ck.violation("Server::run panicked/crashed on a scripted environment",
-                         {"case": c, "impl": r}, tag="panic%d" % c["id"])
+            why = r.get("why") or ("the harness produced no result for the case" if r.get("crash") else "panic")
+            ck.violation("Server::run panicked or exceeded its budget on a scripted environment: %s [%s]"
+                         % (why[:200], c.get("tag", "")),
+                         {"case": c, "impl": r, "script": script_summary(c["script"])}, tag="panic%d" % c["id"])
             continue
         items.append((c, r))
     try:
